@@ -341,10 +341,13 @@ def child_main(path, start):
 # parent side
 # ======================================================================
 
-def run_cases(cases, per_case_timeout=20):
+def run_cases(cases, per_case_timeout=20, max_hangs=3):
     """Run the cases in a child; a case that does not return within the timeout
-    is reported as {'hang': True} and the rest continues in a fresh child."""
+    is reported as {'hang': True} and the rest continues in a fresh child.  After
+    `max_hangs` hangs the remaining cases are not run ({'skipped': True}): the
+    hangs found are violations already and the check must end in bounded time."""
     results = [None] * len(cases)
+    hangs = 0
     if not cases:
         return results
     d = tempfile.mkdtemp(prefix='verif-legacy-')
@@ -359,6 +362,10 @@ def run_cases(cases, per_case_timeout=20):
     errpath = os.path.join(d, 'stderr.txt')
     try:
         while i < len(cases):
+            if hangs >= max_hangs:
+                for j in range(i, len(cases)):
+                    results[j] = {'skipped': True}
+                break
             errf = open(errpath, 'w')
             p = subprocess.Popen([common.PY, '-m', 'harness.props.legacy', '--child', path, str(i)],
                                  stdout=subprocess.PIPE, stderr=errf, env=env, cwd=common.VERIF, text=True)
@@ -386,6 +393,7 @@ def run_cases(cases, per_case_timeout=20):
                     line = q.get(timeout=per_case_timeout)
                 except _queue.Empty:
                     results[i] = {'hang': True}
+                    hangs += 1
                     i += 1
                     break
                 if line is None:
@@ -566,6 +574,8 @@ def check_c05(ctx):
     found = 0
     clean = []
     for c, o, l, m in zip(cases, obs, lines, model):
+        if o.get('skipped'):
+            continue
         r = upload_oracle(c, o)
         path = 'multipart' if c['size'] >= c['thr'] else 'put'
         ctx.count('legacy-upload', 1, nontrivial_key=json.dumps(c, sort_keys=True), path=path,
@@ -973,6 +983,8 @@ def _check_downloads(ctx, prop, cases, oracle):
     clean = []
     # pass 1: the properties themselves on what the implementation did
     for c, o, l, m in zip(cases, obs, lines, model):
+        if o.get('skipped'):
+            continue
         ranged = c['size'] >= c['thr']
         ctx.count(comp, 1, nontrivial_key=json.dumps(c, sort_keys=True), path='ranged' if ranged else 'single',
                   outcome=str(o.get('outcome')).split(':')[0],
@@ -1004,6 +1016,8 @@ def _check_downloads(ctx, prop, cases, oracle):
         ctx.sample({'component': comp, 'case': cases[-1], 'model_cmd': lines[-1], 'model': model[-1],
                     'impl_outcome': obs[-1].get('outcome'), 'samples_of_destination': obs[-1].get('samples')})
     ctx.cov.setdefault('legacy', {})[prop + '_destination_samples'] = sum(o.get('samples', 0) for o in obs)
+    if any(o.get('skipped') for o in obs):
+        ctx.notes.append(f'legacy {prop}: {sum(1 for o in obs if o.get("skipped"))} cases not run after 3 hangs (each hang is reported)')
     _broken_report(ctx, found)
 
 
